@@ -22,7 +22,9 @@ ParR == <<0, 1, 2, 2, 1, 5, 5>>       \* ((a, b), (c, d))
 TaxaOf(id) == IF id = 2 THEN <<1, 3, 2, 4>> ELSE <<1, 2, 3, 4>>
 LensU(id) == CASE id = 1 -> <<-1, 4, 4, 4, 4, 4>> [] id = 2 -> <<-1, 4, 8, 8, 4, 4>> [] OTHER -> <<-1, 8, 4, 12, 4, 4>>
 LensR(id) == CASE id = 1 -> <<-1, 4, 4, 4, 4, 4, 4>> [] id = 2 -> <<-1, 8, 4, 4, 8, 4, 4>> [] OTHER -> <<-1, 12, 4, 4, 12, 4, 4>>
-WeightOf(id) == IF id = 2 THEN 4 ELSE IF id = 3 THEN 1 ELSE -1
+\* weights 1 (none given), 2, 1 (given): in the sample <<1, 2, 3>> the two topologies tie at exactly half of the weight,
+\* so that a consensus has to break a tie between incompatible splits
+WeightOf(id) == IF id = 2 THEN 4 ELSE IF id = 3 THEN 2 ELSE -1
 Graph(id, r) == IF r = 1 THEN MkTree(ParR, TaxaOf(id), LensR(id), 1) ELSE MkTree(ParU, TaxaOf(id), LensU(id), r)
 Cat(r) == [id \in 1..3 |-> Descr(Graph(id, r), WeightOf(id))]
 DefaultSet == [iel |-> FALSE, ina |-> TRUE, utw |-> TRUE]
